@@ -773,7 +773,9 @@ def sweep_history(ctx, rng, desc, spec, exp, sweep_all, nsweep, case):
       n = (len(ref) + (n == 'all+stop')) if complete and len(ref) <= 6 else 3
     return (name, n)
 
-  pick = lambda: rng.choice(['A', 'A', 'A', 'A', 'A2', 'B', 'B'])
+  # (an equal copy costs as much as the spec: only for specs of <= 30 points)
+  copies = ['A2'] if S.count_points(desc) <= 30 else ['A']
+  pick = lambda: rng.choice(['A', 'A', 'A', 'A', 'B', 'B'] + copies)
   tail = ctx.params.get('reuse_tail', 1)
   steps = []
   if rng.random() < 0.5:
